@@ -10,6 +10,8 @@ Four exhaustively enumerated spaces, all on the real implementation:
              linear extension of its abTEM tasks (cap -> deviation bound) with a mutation monitor on every task input;
              all schedules must return the same result (5e-6: FFTW may take another code path for a differently
              aligned buffer; a shared-state bug moves results by orders of magnitude more).
+ J  joint    several different lazy simulations are evaluated in ONE dask graph - every subset of a member list - and each must equal
+             the result it gives on its own (dask key collisions, shared layers).
  D  threads  (race detector only, sampling, never the deciding step) the same graphs free-running on dask's threaded
              scheduler, 3 repetitions, compared with the synchronous result.
 """
@@ -81,6 +83,9 @@ def check(ctx):
     ctx.extra["schedule_cases_by_completed_deviation_bound"] = dict(collections.Counter(str(r.get("bound")) for r in res if r.get("exhaustive") is False))
     if any(r.get("exhaustive") is False for r in res):
         ctx.cap("some task graphs have more linear extensions than the cap: covered all schedules within the deviation bound instead")
+    # J: several lazy simulations evaluated in ONE dask graph (every subset of a member list): each must give what it gives on its own
+    J = [{"members": m} for m in JOINT_SETS[: (2 if q else len(JOINT_SETS))]]
+    ctx.run(J, "run_joint", batch=1, rule="J: all subsets (size >= 2) of 5-6 different lazy simulations computed in one dask.compute call vs each on its own", space="J joint graphs")
     # D: free-running threads (detector only)
     th = [dict(c, reps=3) for c in sc if c["mb"] == 1 and c["ep"] is None][: (6 if q else 40)]
     ctx.run(th, "run_threads", batch=1, rule="D: free-running threaded scheduler x3 vs synchronous (race detector, sampling)", space="D threads")
@@ -228,6 +233,56 @@ def run_schedules(c):
     return {"viol": viol, "obs": "%d heavy/%d tasks, %d schedules, %s" % (r["heavy"], r["tasks"], r["runs"], "all %s linear extensions" % r["linear_extensions"] if r["exhaustive"] else
                                                                        "all with <=%s deviations %r%s" % (r["bound"], r["level_sizes"], (", level %(deviations)d (%(schedules)d schedules) over budget" % r["skipped_level"]) if r["skipped_level"] else "")),
             "nt": r["heavy"] >= 2, "tr": r["runs"], "st": r["runs"], "ref": r["runs"], "exhaustive": r["exhaustive"], "bound": r["bound"]}
+
+
+# --------------------------------------------------------------------------------------------- J
+JOINT_SETS = [
+    [["probe", "fp2", None, "waves", "custom", 1], ["probe", "fp2", None, "waves", "custom", 2], ["probe", "fp3", None, "waves", "custom", 1],
+     ["probe", "atoms", None, "waves", "custom", 1], ["probe_ab", "fp2", None, "waves", "custom", 1], ["pw", "fp2", None, "waves", "none", 1]],
+    [["probe", "fp2", 1, "annular", "grid", 2], ["probe", "fp2", None, "annular", "grid", 2], ["probe", "fp2mean", 1, "annular", "grid", 2],
+     ["probe", "ae2", 1, "annular", "grid", 2], ["probe", "fp2", 1, "flex", "grid", 2]],
+    [["probe", "crystal_fp", None, "pix", "custom", 1], ["probe", "crystal", None, "pix", "custom", 1], ["probe", "array", None, "pix", "custom", 1],
+     ["probe", "finite", None, "pix", "custom", 1], ["probe", "fp2", None, "pix", "line", 1]],
+]
+
+
+def run_joint(c):
+    import dask
+    from mc import universe as U
+    from mc.compare import err
+
+    def lazy_outputs(m):
+        b, p, ep, d, s, mb = m
+        bld = U.builder(b)
+        kw = dict(detectors=U.detector(d), lazy=True, max_batch=mb)
+        out = bld.multislice(U.potential(p, ep), scan=U.scan(s), **kw) if b.startswith("probe") else bld.multislice(U.potential(p, ep), **kw)
+        return out if isinstance(out, list) else [out]
+
+    ms = c["members"]
+    alone = []
+    for m in ms:
+        alone.append([np.asarray(o.compute().array) for o in lazy_outputs(m)])
+    viol, tr = [], len(ms)
+    subsets = [s_ for r in range(2, len(ms) + 1) for s_ in itertools.combinations(range(len(ms)), r)]
+    for sub in subsets:
+        lz = [lazy_outputs(ms[i]) for i in sub]  # fresh lazy objects for every joint evaluation
+        flat = [o.array for outs in lz for o in outs]
+        got = dask.compute(*flat)
+        tr += 1
+        k = 0
+        for i, outs in zip(sub, lz):
+            for j, _ in enumerate(outs):
+                g = np.asarray(got[k])
+                k += 1
+                a = alone[i][j]
+                if g.shape != a.shape:
+                    viol.append({"key": "joint-graph/shape", "msg": "member %r computed together with %r has shape %r, on its own %r" % (ms[i], [ms[t] for t in sub if t != i], g.shape, a.shape)})
+                elif err(g, a, RTOL_SAME, atol=1e-30) > 1.0:
+                    viol.append({"key": "joint-graph/values", "msg": "member %r computed together with %r differs from its own result by %.3g on max %.3g" % (
+                        ms[i], [ms[t] for t in sub if t != i], float(np.abs(g - a).max()), float(np.abs(a).max()))})
+        if len(viol) >= 2:
+            break
+    return {"viol": _dedupe(viol)[:2], "obs": "%d members, %d subsets" % (len(ms), len(subsets)), "nt": True, "tr": tr, "st": len(subsets), "ref": tr}
 
 
 # --------------------------------------------------------------------------------------------- D
